@@ -130,6 +130,33 @@ pub fn for_each_case(
             step(&s, "base-mut", stats, &mut n);
         }
     }
+    // Part D: alias amplification (each level aliases the previous one m times), and a long anchored
+    // list aliased many times
+    if shard == 0 {
+        for (m, k) in [(3usize, 3usize), (4, 4), (8, 3), (5, 5), (9, 4), (6, 5)] {
+            for flow in [true, false] {
+                let mut s = String::new();
+                for lvl in 0..k {
+                    let item = if lvl == 0 { "x".to_string() } else { format!("*a{}", lvl - 1) };
+                    if flow {
+                        s.push_str(&format!("a{lvl}: &a{lvl} [{}]\n", vec![item; m].join(", ")));
+                    } else {
+                        s.push_str(&format!("a{lvl}: &a{lvl}\n"));
+                        for _ in 0..m {
+                            s.push_str(&format!("  - {item}\n"));
+                        }
+                    }
+                }
+                step(&s, "alias-amplification", stats, &mut n);
+            }
+        }
+        let mut s = String::from("l: &l [");
+        s.push_str(&vec!["x"; 150].join(","));
+        s.push_str("]\nu: [");
+        s.push_str(&vec!["*l"; 150].join(","));
+        s.push_str("]\n");
+        step(&s, "alias-amplification", stats, &mut n);
+    }
     // Part C: long inputs
     for i in 0..b.long {
         if i % nshards == shard {
